@@ -6,32 +6,90 @@ fn res<T: Pat, E>(r: Result<T, E>) -> String {
     match r { Ok(x) => format!("Ok({})", x.to_hex()), Err(_) => "Err".into() }
 }
 
-// try <src> <dst> <hex>: dispatch on (dst kind/sign, src kind/sign)
+// try <src> <dst> <hex> [tf]: dispatch on (dst kind/sign, src kind/sign).
+// Trailing `tf`: the `TryFrom` form of the same conversion (for uK -> bnum, iK -> signed bnum, bool, char this is
+// core's blanket `impl<T, U: Into<T>> TryFrom<U> for T`, error type `Infallible`).
 macro_rules! inner {
     // bnum -> primitive : TryFrom
-    (pr $ds:ident ($D:ty) bn $ss:ident ($S:ty) $x:ident) => { Some(res(<$D as TryFrom<$S>>::try_from(<$S as Pat>::from_hex($x)))) };
+    (pr $ds:ident ($D:ty) bn $ss:ident ($S:ty) $x:ident $tf:ident) => { if $tf { None } else { Some(res(<$D as TryFrom<$S>>::try_from(<$S as Pat>::from_hex($x)))) } };
     // bnum -> bnum : BTryFrom
-    (bn $ds:ident ($D:ty) bn $ss:ident ($S:ty) $x:ident) => { Some(res(<$D as BTryFrom<$S>>::try_from(<$S as Pat>::from_hex($x)))) };
+    (bn $ds:ident ($D:ty) bn $ss:ident ($S:ty) $x:ident $tf:ident) => { if $tf { None } else { Some(res(<$D as BTryFrom<$S>>::try_from(<$S as Pat>::from_hex($x)))) } };
     // unsigned primitive -> unsigned bnum : From ; signed primitive -> unsigned bnum : TryFrom
-    (bn u ($D:ty) pr u ($S:ty) $x:ident) => { Some(format!("Ok({})", <$D as From<$S>>::from(<$S as Pat>::from_hex($x)).to_hex())) };
-    (bn u ($D:ty) pr i ($S:ty) $x:ident) => { Some(res(<$D as TryFrom<$S>>::try_from(<$S as Pat>::from_hex($x)))) };
+    (bn u ($D:ty) pr u ($S:ty) $x:ident $tf:ident) => {
+        if $tf { Some(res(<$D as TryFrom<$S>>::try_from(<$S as Pat>::from_hex($x)))) }
+        else { Some(format!("Ok({})", <$D as From<$S>>::from(<$S as Pat>::from_hex($x)).to_hex())) }
+    };
+    (bn u ($D:ty) pr i ($S:ty) $x:ident $tf:ident) => { Some(res(<$D as TryFrom<$S>>::try_from(<$S as Pat>::from_hex($x)))) };
     // primitive -> signed bnum : From
-    (bn i ($D:ty) pr $ss:ident ($S:ty) $x:ident) => { Some(format!("Ok({})", <$D as From<$S>>::from(<$S as Pat>::from_hex($x)).to_hex())) };
-    (pr $ds:ident ($D:ty) pr $ss:ident ($S:ty) $x:ident) => { None };
+    (bn i ($D:ty) pr $ss:ident ($S:ty) $x:ident $tf:ident) => {
+        if $tf { Some(res(<$D as TryFrom<$S>>::try_from(<$S as Pat>::from_hex($x)))) }
+        else { Some(format!("Ok({})", <$D as From<$S>>::from(<$S as Pat>::from_hex($x)).to_hex())) }
+    };
+    (pr $ds:ident ($D:ty) pr $ss:ident ($S:ty) $x:ident $tf:ident) => { None };
 }
 macro_rules! by_dst {
-    ($dk:ident $ds:ident ($D:ty) $src:ident $x:ident) => { for_type!($src, by_src!($dk $ds ($D) $x)) };
+    ($dk:ident $ds:ident ($D:ty) $src:ident $x:ident $tf:ident) => { for_type!($src, by_src!($dk $ds ($D) $x $tf)) };
+}
+macro_rules! by_dst_w {
+    ($dk:ident $ds:ident ($D:ty) $src:ident $x:ident $tf:ident) => { for_wtype!($src, by_src!($dk $ds ($D) $x $tf)) };
 }
 macro_rules! by_src {
-    ($sk:ident $ss:ident ($S:ty) $dk:ident $ds:ident ($D:ty) $x:ident) => { inner!($dk $ds ($D) $sk $ss ($S) $x) };
+    ($sk:ident $ss:ident ($S:ty) $dk:ident $ds:ident ($D:ty) $x:ident $tf:ident) => { inner!($dk $ds ($D) $sk $ss ($S) $x $tf) };
 }
 macro_rules! from_bool {
-    (bn $ds:ident ($D:ty) $x:ident) => { Some(format!("Ok({})", <$D as From<bool>>::from($x != "0").to_hex())) };
-    (pr $ds:ident ($D:ty) $x:ident) => { None };
+    (bn $ds:ident ($D:ty) $x:ident $tf:ident) => {
+        if $tf { Some(res(<$D as TryFrom<bool>>::try_from($x != "0"))) }
+        else { Some(format!("Ok({})", <$D as From<bool>>::from($x != "0").to_hex())) }
+    };
+    (pr $ds:ident ($D:ty) $x:ident $tf:ident) => { None };
 }
 macro_rules! from_char {
-    (bn u ($D:ty) $x:ident) => { Some(format!("Ok({})", <$D as From<char>>::from(char::from_u32(u32::from_str_radix($x, 16).unwrap()).expect("char")).to_hex())) };
-    ($k:ident $ds:ident ($D:ty) $x:ident) => { None };
+    (bn u ($D:ty) $x:ident $tf:ident) => {{
+        let c = char::from_u32(u32::from_str_radix($x, 16).unwrap()).expect("char");
+        if $tf { Some(res(<$D as TryFrom<char>>::try_from(c))) }
+        else { Some(format!("Ok({})", <$D as From<char>>::from(c).to_hex())) }
+    }};
+    ($k:ident $ds:ident ($D:ty) $x:ident $tf:ident) => { None };
+}
+
+// The wide vocabulary (not in `for_type!`): every digit type at 8192 bits, odd digit counts (64x127, 16x33),
+// 1024 bits, and two single-digit types so that wide <-> narrow and wide <-> primitive-sized pairs exist.
+macro_rules! for_wtype {
+    ($name:expr, $m:ident ! ( $($extra:tt)* )) => {
+        match $name {
+            "u8x1024" => $m!(bn u (bnum::BUintD8<1024>) $($extra)*),
+            "i8x1024" => $m!(bn i (bnum::BIntD8<1024>) $($extra)*),
+            "u16x512" => $m!(bn u (bnum::BUintD16<512>) $($extra)*),
+            "i16x512" => $m!(bn i (bnum::BIntD16<512>) $($extra)*),
+            "u32x256" => $m!(bn u (bnum::BUintD32<256>) $($extra)*),
+            "i32x256" => $m!(bn i (bnum::BIntD32<256>) $($extra)*),
+            "u64x128" => $m!(bn u (bnum::BUint<128>) $($extra)*),
+            "i64x128" => $m!(bn i (bnum::BInt<128>) $($extra)*),
+            "u64x127" => $m!(bn u (bnum::BUint<127>) $($extra)*),
+            "i64x127" => $m!(bn i (bnum::BInt<127>) $($extra)*),
+            "u16x33" => $m!(bn u (bnum::BUintD16<33>) $($extra)*),
+            "i16x33" => $m!(bn i (bnum::BIntD16<33>) $($extra)*),
+            "u64x16" => $m!(bn u (bnum::BUint<16>) $($extra)*),
+            "i64x16" => $m!(bn i (bnum::BInt<16>) $($extra)*),
+            "u8x1" => $m!(bn u (bnum::BUintD8<1>) $($extra)*),
+            "i8x1" => $m!(bn i (bnum::BIntD8<1>) $($extra)*),
+            "u64x1" => $m!(bn u (bnum::BUint<1>) $($extra)*),
+            "i64x1" => $m!(bn i (bnum::BInt<1>) $($extra)*),
+            "u8" => $m!(pr u (u8) $($extra)*),
+            "u16" => $m!(pr u (u16) $($extra)*),
+            "u32" => $m!(pr u (u32) $($extra)*),
+            "u64" => $m!(pr u (u64) $($extra)*),
+            "u128" => $m!(pr u (u128) $($extra)*),
+            "usize" => $m!(pr u (usize) $($extra)*),
+            "i8" => $m!(pr i (i8) $($extra)*),
+            "i16" => $m!(pr i (i16) $($extra)*),
+            "i32" => $m!(pr i (i32) $($extra)*),
+            "i64" => $m!(pr i (i64) $($extra)*),
+            "i128" => $m!(pr i (i128) $($extra)*),
+            "isize" => $m!(pr i (isize) $($extra)*),
+            _ => None,
+        }
+    };
 }
 
 macro_rules! digits_imp {
@@ -66,12 +124,19 @@ fn main() {
                 let src = a0;
                 let dst = args[0];
                 let x = args[1];
-                let _ = (src, x);
-                match src {
-                    "bool" => for_type!(dst, from_bool!(x)),
-                    "char" => for_type!(dst, from_char!(x)),
-                    _ => for_type!(dst, by_dst!(src x)),
-                }
+                let tf = match args.get(2) { None => false, Some(&"tf") => true, Some(_) => return None };
+                let _ = (src, x, tf);
+                let grid: Option<String> = match src {
+                    "bool" => for_type!(dst, from_bool!(x tf)),
+                    "char" => for_type!(dst, from_char!(x tf)),
+                    _ => for_type!(dst, by_dst!(src x tf)),
+                };
+                // types outside the shared grid: the wide vocabulary of this bin
+                grid.or_else(|| match src {
+                    "bool" => for_wtype!(dst, from_bool!(x tf)),
+                    "char" => for_wtype!(dst, from_char!(x tf)),
+                    _ => for_wtype!(dst, by_dst_w!(src x tf)),
+                })
             }
             _ => {
                 let (signed, c) = split_cfg(a0);
